@@ -373,4 +373,62 @@ theorem rwstepG_others {C : Type} (st : C → Op K V → C × Out K V C) (wst : 
       rw [List.getElem?_append_left (by simpa using hj), List.getElem?_set_ne (Ne.symm hne)]
     · simp only []; rw [List.getElem?_set_ne (Ne.symm hne)]
 
+/-! copy() behaves like its source for ever under a re-entrant on_miss that keeps no state of its own -/
+
+/-- the ring-model machine with the callback's history hidden (for callbacks that do not look at it) -/
+def Cache.machNoLog : Mach K V (Cache K V) := { (Cache.mach (K := K) (V := V)) with log := fun _ => [] }
+
+theorem OutCore.toRel {x y : Out K V (Cache K V)} (h : OutCore x y) : OutRel SameCore x y := by
+  cases h with
+  | same => exact OutRel.refl_of _ (fun m _ => ⟨rfl, rfl, rfl, rfl, rfl⟩)
+  | cache h => exact OutRel.cache h
+
+theorem SameCore.mach : MSim (Cache.machNoLog (K := K) (V := V)) Cache.machNoLog (fun _ => SameCore) SameCore where
+  weaken := fun h => h
+  log := fun _ => rfl
+  find := fun {n a b} k h => by
+    show (lookup k a.ring).isSome = (lookup k b.ring).isSome
+    rw [h.ring]
+  hit := fun {n a b} k h hf => by
+    have hg := h.getitem k
+    have hf' : (Cache.mach (V := V)).find b k = true := by
+      show (lookup k b.ring).isSome = true
+      rw [← h.ring]; exact hf
+    obtain ⟨v, _, hb⟩ := Cache.getitem_found hf'
+    refine ⟨hg.1, v, ?_, ?_⟩
+    · show (a.getitem k).2 = _; rw [hg.2, hb]
+    · show (b.getitem k).2 = _; rw [hb]
+  missed := fun k h => ⟨h.lru, h.max, h.om, h.d, h.ring⟩
+  setitem := fun k v h => h.setitem k v
+  soft := fun h => ⟨h.lru, h.max, h.om, h.d, h.ring⟩
+  step := fun op h _ => ⟨(h.step op).1, (h.step op).2.toRel⟩
+
+/-- a callback that ignores its own history runs the same on both machines -/
+theorem Cache.rget_noLog (P0 : K → OmProg K V) (n : Nat) :
+    (Cache.mach (K := K) (V := V)).rget (fun _ => P0) n = Cache.machNoLog.rget (fun _ => P0) n := by
+  induction n with
+  | zero => rfl
+  | succ m ih =>
+    funext c k
+    simp only [Mach.rget]
+    rw [ih]
+    rfl
+
+theorem Cache.rstep_noLog (P0 : K → OmProg K V) (n : Nat) :
+    (Cache.mach (K := K) (V := V)).rstep (fun _ => P0) n = Cache.machNoLog.rstep (fun _ => P0) n := by
+  unfold Mach.rstep
+  rw [Cache.rget_noLog]
+  rfl
+
+theorem SameCore.rrun {a b : Cache K V} (h : SameCore a b) (P0 : K → OmProg K V) (fuel : Nat) (ops : List (Op K V)) :
+    SameCore (Cache.mach.rrun (fun _ => P0) fuel a ops) (Cache.mach.rrun (fun _ => P0) fuel b ops) := by
+  unfold Mach.rrun
+  induction ops generalizing a b with
+  | nil => exact h
+  | cons op ops ih =>
+    simp only [List.foldl_cons]
+    apply ih
+    rw [Cache.rstep_noLog]
+    exact (SameCore.mach.rstep (fun _ => P0) fuel (n := 0) h op).1
+
 end C02
